@@ -16,7 +16,8 @@ RULE = ('Generated (start, end, schedule kind, weekday, pre_market) with end tim
         'all four pre/post flag settings, buy-and-hold = start or same time next Monday. Non-trivial = at '
         'least one instant and (range start or end falls on a scheduled date, or a weekend month end lies '
         'inside, or the start has a non-midnight time of day), or a rejected weekday.'
-        " Round-10 reach: part `session`: the schedule a BacktestTradingSession builds for itself (every kind, with and without a weekday keyword that has no meaning for the kind) against the calendar, each instant an event of the session's own clock; invalid weekdays that are not strings (-1, -3, -5, 5, 7, None, 2.5; any error type counts as a rejection there).")
+        " Round-10 reach: part `session`: the schedule a BacktestTradingSession builds for itself (every kind, with and without a weekday keyword that has no meaning for the kind) against the calendar, each instant an event of the session's own clock; invalid weekdays that are not strings (-1, -3, -5, 5, 7, None, 2.5; any error type counts as a rejection there)."
+        " Round-11 reach: the clock is peeked at before the full pass; the `session` part asks the instants latest first, then earliest first, and re-reads the schedule; a quarter of the random cases run with the process's local zone set to New York / Tokyo.")
 ASSUMPTIONS = [
     'UTC-aware pandas Timestamps; end time-of-day not before the start time-of-day (the stated domain)',
     'dates 1990-2040; ranges up to 800 days (random) and every start date 2019-2024 x 0..70 days (sweep)',
@@ -30,6 +31,28 @@ def _instants(dates_, pre):
 
 
 def run_case(case):
+    ltz = case.get('local_tz')
+    if not ltz:
+        return _run_case(case)
+    # the process runs with another local time zone (TZ): schedules are stated in UTC whatever the machine's zone is
+    import os
+    import time
+    old = os.environ.get('TZ')
+    os.environ['TZ'] = ltz
+    time.tzset()
+    try:
+        res = _run_case(case)
+        res.classes.append('process_local_zone_not_utc')
+        return res
+    finally:
+        if old is None:
+            os.environ.pop('TZ', None)
+        else:
+            os.environ['TZ'] = old
+        time.tzset()
+
+
+def _run_case(case):
     q = load()
     kind = case['kind']
     start = cal.ts6(case['start'])
@@ -92,6 +115,8 @@ def run_case(case):
     # every instant coincides with a clock event of the same range, whatever the pre/post flags
     for pm, qm in ((False, False), (True, True), (True, False), (False, True)):
         eng = q.DailyBusinessDaySimulationEngine(start, end, pre_market=pm, post_market=qm)
+        if pm != qm:
+            next(iter(eng), None)              # (somebody looked at the first event only, before the full pass)
         times = set(e.ts for e in eng)
         if set(e.ts for e in list(eng)) != times:
             raise Violation('the clock for %s..%s emits different events when iterated a second time' % (start, end))
@@ -122,7 +147,8 @@ def cases(draw):
     dur = gen.short_durations if kind == 'daily' else gen.durations
     start, end = draw(gen.ranges(dur=dur))
     case = {'kind': kind, 'start': start, 'end': end, 'pre': draw(st.booleans()),
-            'pre_how': draw(st.sampled_from(['bool', 'bool', 'numpy', 'int']))}
+            'pre_how': draw(st.sampled_from(['bool', 'bool', 'numpy', 'int'])),
+            'local_tz': draw(st.sampled_from([None, None, None, 'America/New_York', 'Asia/Tokyo']))}
     if kind == 'weekly':
         case['weekday'] = draw(st.integers(0, 4))
         case['lower'] = draw(st.booleans())
@@ -162,9 +188,13 @@ def run_session_schedule(case):
                                              exp[k] if k < len(exp) else None, len(got), len(exp)))
     if kind != 'buy_and_hold':
         times = set(e.ts for e in bt.sim_engine)
-        for r in got:
+        # (asked latest first, then earliest first: the answer does not depend on what was asked before)
+        for r in list(reversed(got)) + got:
             if r not in times or not bt._is_rebalance_event(r):
                 raise Violation('%s instant %s of a session %s..%s is not an event of the session clock' % (kind, r, start, end))
+        if list(bt.rebalance_schedule) != exp:
+            raise Violation('after its instants were looked up the %s schedule of the session %s..%s holds %d of %d instants' % (
+                kind, start, end, len(bt.rebalance_schedule), len(exp)))
     cls = ['session_' + kind]
     if kind != 'weekly' and case.get('weekday') is not None:
         cls.append('weekday_keyword_without_weekly')
